@@ -95,7 +95,9 @@ def height(draw, allow_tall=False):
 
 # uint64 is left out: K06 (open finding, Polars computes Int64 x UInt64 arithmetic in Float64)
 SIZED = {"int": ["int64", "int64", "int32", "int16", "int8", "uint8", "uint16", "uint32"],
-         "float": ["float64", "float64", "float32"]}
+         "float": ["float64", "float64", "float32"],
+         # the time unit of a Polars source frame (the library normalises every unit to microseconds)
+         "datetime": ["datetime", "datetime", "datetime_ms", "datetime_ns"]}
 
 
 @st.composite
@@ -120,7 +122,7 @@ def table(draw, name, *, fams=("int", "float", "bool", "str", "date", "datetime"
         dtype = SRC_DTYPE[fam]
         if sized and fam in SIZED:
             dtype = draw(st.sampled_from(SIZED[fam]))
-            if dtype not in ("int64", "float64"):
+            if fam in ("int", "float") and dtype not in ("int64", "float64"):
                 # small magnitudes that every width (and float32) represents exactly
                 vals = [None if v is None else (abs(int(v)) % 100 if fam == "int" else float(int(v * 4) % 400) / 4) for v in vals]
         if tall and draw(st.booleans()):
